@@ -110,6 +110,24 @@ template <class C> struct Runner {
         }
     }
 };
+
+// The completed manager's own entry points under a failing backend (the library's callers may use them like any allocator): a request that
+// fails must leave the caller's block alone, report ENOMEM-style failure by returning NULL, and everything can still be freed exactly once.
+static void direct_case(Ctx &ctx, Local &lc, int op, int fail_k) {
+    Mem mem(2); UriMemoryManager *mm = mem.mm(); Str enc = fmt("direct`%d`%d`0`0`0`0`0`A", op, fail_k); int sig; lc.runs++; ctx.progress++;
+    if ((sig = GUARD_ENTER()) != 0) { ctx.violation("", enc, fmt("%s in a direct call on the completed manager with a failing backend", signame(sig))); return; }
+    Str what; char *p = (char *)mm->malloc(mm, 24); if (p) memset(p, 0x5C, 24);
+    mem.arm((uint64_t)fail_k, 0, 0); void *q = 0;
+    switch (op) { case 0: q = mm->realloc(mm, p, 4096); break; case 1: q = mm->reallocarray(mm, p, 64, 64); break; case 2: q = mm->calloc(mm, 16, 16); break; case 3: q = mm->malloc(mm, 100); break; case 4: q = mm->realloc(mm, 0, 100); break; }
+    bool failed = mem.failed() > 0; mem.disarm();
+    if (failed && q) what = "the backend refused the request but the call returned a block";
+    if (!failed && !q) what = "the call failed although the backend served every request";
+    if (what.empty() && p && (op > 1 || !q)) for (int i = 0; i < 24; i++) if (p[i] != 0x5C) { what = "the caller's block was changed by a call that failed / did not concern it"; break; }
+    if (op <= 1) { if (q) mm->free(mm, q); else if (p) mm->free(mm, p); } else { if (q) mm->free(mm, q); if (p) mm->free(mm, p); }
+    GUARD_LEAVE();
+    if (what.empty()) what = mem.misuse(); if (what.empty() && mem.outstanding() != 0) what = fmt("%ld backend block(s) outstanding after everything was freed", mem.outstanding());
+    if (!what.empty()) ctx.violation("", enc, "completed manager, " + Str(op == 0 ? "realloc(p, 4096)" : op == 1 ? "reallocarray(p, 64, 64)" : op == 2 ? "calloc(16, 16)" : op == 3 ? "malloc(100)" : "realloc(NULL, 100)") + fmt(" with backend request %d failing: ", fail_k) + what);
+}
 void run(Ctx &ctx) {
     Local lc; Runner<char> ra(&ctx, &lc); Runner<wchar_t> rw(&ctx, &lc);
     std::vector<ScnSpec> specs = scenario_specs(ctx.secondary ? 0 : ctx.quick() ? 2 : 3);
@@ -120,6 +138,7 @@ void run(Ctx &ctx) {
         if (ctx.secondary) { ts.resize(4); bs.resize(2); }
         for (auto &t : ts) for (auto &b : bs) for (int m1 : { 8, 63, 55 }) { if (!ctx.mine(ci++) || ctx.expired()) continue; ra.run_chain(t, b, m1); rw.run_chain(t, b, m1); }
     }
+    if (ctx.worker == 0) for (int op = 0; op < 5; op++) for (int k = 0; k <= 2; k++) direct_case(ctx, lc, op, k);
     ctx.st.count("evaluations", lc.runs); ctx.st.count("chain_executions", lc.chain_runs); ctx.st.count("scenarios", lc.specs); ctx.st.count("faults_consumed", lc.faults_consumed); ctx.st.count("faults_not_reached", lc.faults_unreached); ctx.st.count("retries_after_failure", lc.retries);
     for (int k = 0; k < K_NKINDS; k++) ctx.st.count(Str("scenarios_") + SCN_NAMES[k], lc.per_kind[k]);
     ctx.st.distinct("max_allocs", fmt("%llu", (unsigned long long)lc.max_allocs));
@@ -127,6 +146,7 @@ void run(Ctx &ctx) {
 }
 void replay(Ctx &ctx, const Str &enc) {
     std::vector<Str> p = split(enc, '`');
+    if (p.size() >= 3 && p[0] == "direct") { Local l3; direct_case(ctx, l3, atoi(p[1].c_str()), atoi(p[2].c_str())); return; }
     if (p.size() == 8 && p[0] == "chain") { Local lc2; int m1 = atoi(p[3].c_str()), mk = atoi(p[4].c_str()); uint64_t at = strtoull(p[5].c_str(), 0, 10), from = strtoull(p[6].c_str(), 0, 10);
         if (p[7] == "A") { Runner<char> r(&ctx, &lc2); typename Runner<char>::ChainOut b0; memset(&b0, 0, sizeof b0); Mem &m = r.pick(mk); if (r.chain_exec(p[1], p[2], m1, m, 0, 0, &b0) && (at || from)) r.chain_exec(p[1], p[2], m1, m, at, from, &b0); }
         else { Runner<wchar_t> r(&ctx, &lc2); typename Runner<wchar_t>::ChainOut b0; memset(&b0, 0, sizeof b0); Mem &m = r.pick(mk); if (r.chain_exec(p[1], p[2], m1, m, 0, 0, &b0) && (at || from)) r.chain_exec(p[1], p[2], m1, m, at, from, &b0); }
